@@ -925,11 +925,12 @@ class _RaisesIf:
 
 
 def _bcast_ref(a: t.Sequence[int], b: t.Sequence[int]) -> bool:
-    """Reference broadcasting rule (independent of numpy and of pane.util)."""
-    for (x, y) in zip(reversed(tuple(a)), reversed(tuple(b))):
-        if x != y and x != 1 and y != 1:
-            return False
-    return True
+    """Reference rule for "an array of shape a can be broadcast *to* shape b" (independent of numpy and of pane.util):
+    a has no more axes than b and, aligned from the right, every axis of a equals b's or is 1."""
+    (a, b) = (tuple(a), tuple(b))
+    if len(a) > len(b):
+        return False
+    return all(x == y or x == 1 for (x, y) in zip(reversed(a), reversed(b)))
 
 
 class PredicateBoom(Exception):
